@@ -1409,59 +1409,106 @@ func (c *Ctx) symmetrisationLoop(rel, name string) bool {
 			return
 		}
 		src, ok := u.X.(*ssa.IndexAddr)
-		if !ok || src.X != dst.X {
+		if !ok {
 			return
 		}
 		d, s := lc.of(dst.Index), lc.of(src.Index)
-		if len(d.t) != 2 || len(s.t) != 2 || d.c != 0 || s.c != 0 {
-			return
-		}
-		// d = 20*j + i ; s = 20*i + j
-		var iA, jA string
-		for a, k := range d.t {
-			if k == 20 {
-				jA = a
+		var window *ssa.Slice
+		if src.X != dst.X {
+			// the source row read through a window m[lo:hi] of the same slice: element k of the
+			// window is m[lo+k]
+			sl, isSl := src.X.(*ssa.Slice)
+			if !isSl || sl.X != dst.X || sl.Low == nil || sl.High == nil {
+				return
 			}
-			if k == 1 {
-				iA = a
-			}
+			window = sl
+			s = s.add(lc.of(sl.Low))
 		}
-		if iA == "" || jA == "" || s.t[iA] != 20 || s.t[jA] != 1 {
-			return
-		}
-		// loop bounds: i in [0,20), j in [0,i)
+		// the two counters: in d the column counter has coefficient 20, the row counter 1
 		vi := valueIndexCached(lc)
-		pi, ok1 := vi[iA].(*ssa.Phi)
-		pj, ok2 := vi[jA].(*ssa.Phi)
-		if !ok1 || !ok2 {
+		var pi, pj *ssa.Phi
+		for a, k := range d.t {
+			p, isPhi := vi[a].(*ssa.Phi)
+			if !isPhi {
+				return
+			}
+			switch k {
+			case 20:
+				pj = p
+			case 1:
+				pi = p
+			default:
+				return
+			}
+		}
+		if pi == nil || pj == nil || len(d.t) != 2 {
 			return
 		}
-		bound := func(p *ssa.Phi) (init0, step1 bool, b lin) {
-			step1 = true
-			for i, e := range p.Edges {
-				_ = i
+		// a counter of the range form holds index-1: the index is φ+1
+		logical := func(p *ssa.Phi) (lin, bool, bool) { // value, starts at 0 or 1, step 1
+			v := lc.of(p)
+			start, step := false, true
+			rangeForm := false
+			for _, e := range p.Edges {
 				if k, ok := constInt(e); ok {
-					init0 = k == 0
+					switch k {
+					case -1:
+						rangeForm, start = true, true
+					case 0, 1:
+						start = true
+					}
 					continue
 				}
 				if bo, ok := e.(*ssa.BinOp); ok && bo.Op == token.ADD && bo.X == ssa.Value(p) {
 					if k, ok := constInt(bo.Y); !ok || k != 1 {
-						step1 = false
+						step = false
 					}
 					continue
 				}
-				step1 = false
+				step = false
 			}
-			if ifi, ok := p.Block().Instrs[len(p.Block().Instrs)-1].(*ssa.If); ok {
-				if bo, ok := ifi.Cond.(*ssa.BinOp); ok && bo.Op == token.LSS && bo.X == ssa.Value(p) {
-					b = lc.of(bo.Y)
-				}
+			if rangeForm {
+				v = v.addc(1)
 			}
+			return v, start, step
+		}
+		I, i0, i1 := logical(pi)
+		J, j0, j1 := logical(pj)
+		if !i0 || !i1 || !j0 || !j1 {
 			return
 		}
-		i0, i1, ib := bound(pi)
-		j0, j1, jb := bound(pj)
-		if i0 && i1 && j0 && j1 && ib.isConst() && ib.c == 20 && jb.equal(linAtom(iA)) {
+		if !d.equal(J.scale(20).add(I)) || !s.equal(I.scale(20).add(J)) {
+			return
+		}
+		// bounds: the row counter runs below 20, the column counter below the row counter
+		upper := func(p *ssa.Phi, v lin) (lin, bool) {
+			ifi, ok := p.Block().Instrs[len(p.Block().Instrs)-1].(*ssa.If)
+			if !ok {
+				return lin{}, false
+			}
+			bo, ok := ifi.Cond.(*ssa.BinOp)
+			if !ok || bo.Op != token.LSS || !lc.of(bo.X).equal(v) {
+				return lin{}, false
+			}
+			return lc.of(bo.Y), true
+		}
+		ib, okI := upper(pi, I)
+		jb, okJ := upper(pj, J)
+		if !okI || !okJ || !ib.isConst() || ib.c != 20 {
+			return
+		}
+		if window != nil {
+			// the window must be exactly the part of row i left of the diagonal: [20i, 20i+i)
+			if !lc.of(window.Low).equal(I.scale(20)) || !lc.of(window.High).equal(I.scale(20).add(I)) {
+				return
+			}
+			if !jb.equal(lc.lenOf(window)) && !jb.equal(I) {
+				return
+			}
+			found = true
+			return
+		}
+		if jb.equal(I) {
 			found = true
 		}
 	})
